@@ -67,7 +67,8 @@ def run(prop, tier, seed, replay=None):
             cov[k.split(".", 1)[1]] = v
     if prop in ("C04", "C17") and not replay:
         cov["exhaustive"] = True
-        cov["exhaustive_scope"] = "the 146097-day cycle (as base days); the int64^6 argument space is sampled"
+        cov["exhaustive_scope"] = ("the 146097-day cycle (as base days) and every year of the sweep range (%d years, a fixed panel of "
+                                   "operations per year); the int64^6 argument space is sampled" % res.stat(prop + ".year_sweep_years"))
     chk.coverage = cov
     if not replay:
         need = {"C04": ["C04.base_days", "C04.cross_alignment_conversions", "C04.stream_outputs", "C04.year_sweep_years"],
